@@ -39,7 +39,9 @@ def _rotl64(x, b):
     return ((x << b) | (x >> (64 - b))) & M64
 
 
-def _sipround(v0, v1, v2, v3):
+def _sipround_plain(v0, v1, v2, v3):
+    """SipRound exactly as drawn in the paper (figure 2.2); kept as the readable definition and
+    compared with the inlined version below in selftest()."""
     v0 = (v0 + v1) & M64
     v1 = _rotl64(v1, 13)
     v1 ^= v0
@@ -54,6 +56,21 @@ def _sipround(v0, v1, v2, v3):
     v1 = _rotl64(v1, 17)
     v1 ^= v2
     v2 = _rotl64(v2, 32)
+    return v0, v1, v2, v3
+
+
+def _sipround(v0, v1, v2, v3):
+    """same as _sipround_plain with the rotations written in line (speed)"""
+    v0 = (v0 + v1) & M64
+    v1 = (((v1 << 13) | (v1 >> 51)) & M64) ^ v0
+    v0 = ((v0 << 32) | (v0 >> 32)) & M64
+    v2 = (v2 + v3) & M64
+    v3 = (((v3 << 16) | (v3 >> 48)) & M64) ^ v2
+    v0 = (v0 + v3) & M64
+    v3 = (((v3 << 21) | (v3 >> 43)) & M64) ^ v0
+    v2 = (v2 + v1) & M64
+    v1 = (((v1 << 17) | (v1 >> 47)) & M64) ^ v2
+    v2 = ((v2 << 32) | (v2 >> 32)) & M64
     return v0, v1, v2, v3
 
 
@@ -373,6 +390,11 @@ _BIP158_VECTORS = [
 def selftest():
     key = bytes(range(16))
     msg = bytes(range(64))
+    state = (1, 2, 3, 4)
+    for i in range(40):
+        assert _sipround(*state) == _sipround_plain(*state)
+        state = _sipround_plain(*state)
+        state = (state[0] ^ (i * 0x9E3779B97F4A7C15 & M64), state[1], state[2], state[3] ^ M64)
     assert len(_SIP_VECTORS) == 64
     for i, want in enumerate(_SIP_VECTORS):
         assert siphash24(key, msg[:i]).to_bytes(8, "little").hex() == want, ("siphash", i)
